@@ -30,6 +30,7 @@
                                                                          → H=<hand-written scanner> G=<composition over the generated patterns>
     view.init <statement>                                                → ok <symbol>|<initializer> | AssertionError   (generated patterns)
     view.immutable <var_type>                                            → <text>
+    capture <param,…> <referenced name,…>                                → <ref_vars names,…>|<capture list,…>
     s! <op…>      the same op, printing the string layer's answer only (inputs outside the abstract layer's domain)
 -/
 import Tranp.Driver.Common
@@ -37,6 +38,7 @@ import Tranp.Model.ScopeStr
 import Tranp.Model.Naming
 import Tranp.Model.Fragment
 import Tranp.Model.ViewHelper
+import Tranp.Model.Capture
 import Tranp.Generated.C08Regex
 
 namespace Tranp.Driver.Scope
@@ -275,6 +277,8 @@ def step1 (st : St) : List String → St × String
     (st, s!"H={sh (ViewHelper.superInitParse (unhexD t))} G={sh (ViewHelper.Gen.superInitParse (unhexD t))}")
   | ["view.init", t] =>
     (st, match ViewHelper.Gen.initializerParse (unhexD t) with | .ok (a, b) => s!"ok {Str.hex a}|{Str.hex b}" | .error e => e.text)
+  | ["capture", ps, rs] =>
+    (st, s!"{hexL (Capture.refVars (unhexL ps) (unhexL rs))}|{hexL (Capture.binds (unhexL ps) (unhexL rs))}")
   | ["view.immutable", vt] => (st, Str.hex (ViewHelper.toImmutable (unhexD vt)))
   | ["dsn.fulljoined", dsn, elems] => (st, Str.hex (ScopeStr.fullJoined (unhexD dsn) (unhexL elems)))
   | ["dsn.localjoined", elems] => (st, Str.hex (ScopeStr.localJoined (unhexL elems)))
